@@ -31,7 +31,10 @@ def fill_trust(ctx):
 
 
 def bounded_constraints(ctx, props):
-    pass
+    from bounded import constraints_bounded as cb
+    from bounded.core import attach
+    b = cb.run(props, ctx.tier, ctx.seed)
+    attach(ctx, b)
 
 
 REPLAYERS = []
